@@ -1,8 +1,8 @@
 #!/bin/bash
-# usage: tools/mutall.sh <seed-id> ...   runs the target property's check (and extras given as SEED:Cxx,Cyy) on each seeded change
+# usage: tools/mutall.sh <seed-id> ...   runs every check on each seeded change (target property first)
 cd "$(dirname "$0")/.."
-for s in "$@"; do
-  id="${s%%:*}"; extra=""; [[ "$s" == *:* ]] && extra="${s#*:}"
+ALL="C01 C02 C03 C04 C05 C06 C07 C08 C09 C10 C11 C12 C13 C14 C15 C16 C17 C18 C19"
+for id in "$@"; do
   prop="${id%%-*}"
-  tools/mutant.py run /tmp/mut/$prop $id $prop ${extra//,/ } 2>&1 | grep -v "^WARNING"
+  tools/mutant.py run /tmp/mut/$prop $id $prop $(echo $ALL | sed "s/$prop//") 2>&1 | grep -v "^WARNING"
 done
